@@ -657,6 +657,7 @@ pub struct C14 {
     scratch: Option<GameState>,
     visited: u64,
     clone_from_copies: u64,
+    raw_word_comparisons: u64,
 }
 impl Monitor for C14 {
     fn on_state(&mut self, o: &Obs, s: &mut Sink) {
@@ -667,13 +668,23 @@ impl Monitor for C14 {
             self.with_capture += 1;
         }
         for i in 0..=k {
-            let r = guard("piece_board_for_step", || decode_board(o.g.piece_board_for_step(i)));
+            let r = guard("piece_board_for_step", || {
+                let pb = o.g.piece_board_for_step(i);
+                (decode_board(pb), [pb.p1_pieces, pb.elephants, pb.camels, pb.horses, pb.dogs, pb.cats, pb.rabbits], pb.all_pieces)
+            });
             match r {
-                Ok(b) => {
+                Ok((b, words, all)) => {
                     let exp = if i == k { sh.board } else { match sh.step_boards.get(i) { Some(b) => *b, None => continue } };
                     if b != exp {
                         let clause = if i == k { "current_step_board" } else { "earlier_step_board" };
                         s.violate_game("C14", clause, o.rec, format!("step_asked={} current_step={} engine={} recorded={}", i, k, b.compact(), exp.compact()));
+                    }
+                    // the stored words themselves (a stale bit outside the occupancy is invisible to the per-piece views)
+                    let ew = board_bits(&exp);
+                    self.raw_word_comparisons += 1;
+                    if words != ew || all != ew[1..].iter().fold(0u64, |a, w| a | w) {
+                        let clause = if i == k { "current_step_board_words" } else { "earlier_step_board_words" };
+                        s.violate_game("C14", clause, o.rec, format!("step_asked={} current_step={} engine words [gold, E, M, H, D, C, R]={:x?} all={:#x} recorded={:x?}", i, k, words, all, ew));
                     }
                 }
                 Err(p) => {
@@ -730,5 +741,6 @@ impl Monitor for C14 {
         }
         s.add("states_in_turns_with_capture", self.with_capture);
         s.add("clone_from_copies_checked", self.clone_from_copies);
+        s.add("stored_board_words_compared", self.raw_word_comparisons);
     }
 }
